@@ -21,6 +21,12 @@
   capture value.  A snapshot is a sequence of searches sharing the cache; across searches depths restart at 0.
   The bounds (`c05_count`, `c05_string`, `c05_collection`, `c05_depth`) are per snapshot.
 
+  DEFERRED SNAPSHOTS (`c05_deferred_*`): a snapshot with stage line_capture / method_capture is collected at the line and
+  completed later by `DeferredSnapshotActionCallback` with the returned / raised value.  `Collector.deferredSnapshot`
+  (Model/CollectorDeferred.lean) models the two phases with what `Extracted.CollectorDeferred` says the second finds of the
+  first; `deferred_eq_collect` proves the result equal to ONE collection (frames, watches / log fields, captured value last),
+  so every per-snapshot bound above holds over the whole pushed snapshot, for every event and value.
+
   THE TIME BUDGET (`c05_time_*`, section at the end): `FrameCollector.__time_exceeded` and the guard of `_process_frame` are
   regenerated from the source (`Extracted/CollectorTime.lean`); the clock is a script (`Clock.read k` = what the k-th
   `time_ns()` call of the collector returns), ANY function Nat → Int (not monotone, may lie before `ts`), any `ts`, any
@@ -37,6 +43,7 @@ import DeepModel.Proofs.FramesCollect
 import DeepModel.Proofs.FramesEntries
 import DeepModel.Proofs.CollectorExamples
 import DeepModel.Proofs.CollectorTime
+import DeepModel.Proofs.CollectorDeferred
 import DeepModel.Proofs.Frames
 
 namespace C05
@@ -325,6 +332,59 @@ example : let ck : Clock := ⟨1, 100, fun _ => 0⟩
 example : (decisions ⟨7, 0, fun _ => 7⟩ [true], decisions ⟨7, 0, fun _ => 8⟩ [true]) = ([true], [false]) := by decide
 
 end time
+
+/-! ### deferred snapshots (stage line_capture / method_capture): one budget across the callback -/
+
+section deferred
+open Extracted.CollectorDeferred
+
+/-- tripwire: what makes the two phases of a deferred snapshot one collection — `ActionContext.__exit__` leaves the identity
+    cache alone, nothing but `new_var_id` writes it, the callback collects through the action context that built the snapshot
+    and merges into that snapshot (re-checked against the source on every run) -/
+theorem c05_deferred_shares_budget :
+    exitKeepsCache = true ∧ cacheOnlyGrows = true ∧ callbackSameContext = true ∧ mergeIsUpdate = true := by decide
+
+/-- **count over the whole pushed snapshot** — for every heap, limits, frames, watches, and every event / returned or raised
+    value the callback completes the snapshot with: frame + watches + captured value together hold at most `maxVars + 1`
+    variables (the callback does not start a fresh budget). -/
+theorem c05_deferred_count (H : Heap) (a : ActionIn) (event : String) (value : ObjId) (s : Snapshot)
+    (h : deferredSnapshot H a event value = .ok s) : s.table.length ≤ a.limits.maxVars + 1 := by
+  obtain ⟨ws, hw⟩ := deferred_is_collect H a event value
+  rw [hw] at h
+  exact c05_count H ⟨a.limits, a.frames, ws⟩ s h
+
+/-- **the other bounds over the whole pushed snapshot** — every entry, the captured value's included: value cut to `maxStr`
+    (flag exact), recorded at depth ≤ `maxDepth - 1`, at most `maxColl` children for sequences and exceptions. -/
+theorem c05_deferred_bounds (H : Heap) (a : ActionIn) (event : String) (value : ObjId) (s : Snapshot)
+    (h : deferredSnapshot H a event value = .ok s) :
+    ∀ e ∈ s.table,
+      (∃ text, renderText (H.obj e.obj) = .ok text ∧ e.value.length ≤ a.limits.maxStr ∧
+        (e.truncated = true ↔ text.length > a.limits.maxStr)) ∧
+      e.depth ≤ a.limits.maxDepth - 1 ∧
+      ((H.obj e.obj).isDictExact = false →
+        (listLikeTypes.contains e.ty = true ∨ (H.obj e.obj).isExc = .ok true) → e.children.length ≤ a.limits.maxColl) := by
+  obtain ⟨ws, hw⟩ := deferred_is_collect H a event value
+  rw [hw] at h
+  intro e he
+  obtain ⟨text, h1, h2, _, h4⟩ := c05_string H ⟨a.limits, a.frames, ws⟩ s h e he
+  exact ⟨⟨text, h1, h2, h4⟩, c05_depth H ⟨a.limits, a.frames, ws⟩ s h e he,
+    c05_collection H ⟨a.limits, a.frames, ws⟩ s h e he⟩
+
+set_option maxRecDepth 20000
+
+/-- non-vacuity: `z = [[1,2,3],[4,5,6],[7,8,9]]; y = 7`, budget 3 spent by the frame; the callback at `return` with the
+    sub-list `[7,8,9]` (object 3, not yet recorded) gets an error result, not a fresh budget; at the next `line` event
+    nothing is captured -/
+example : (match deferredSnapshot Ex.nested ⟨⟨3, 1024, 10, 5⟩, Ex.frame0, []⟩ "return" 3 with
+    | .ok s => (s.table.length, s.watches.map (fun w => (w.hasResult, w.error)))
+    | .failed _ => (0, [])) = (3, [(false, some "variable limit reached")]) := by decide
+example : (match deferredSnapshot Ex.nested ⟨⟨3, 1024, 10, 5⟩, Ex.frame0, []⟩ "line" 3 with
+    | .ok s => (s.table.length, s.watches.length) | .failed _ => (0, 9)) = (3, 0) := by decide
+/-- budget left: the captured value and its elements are recorded under new ids after the frame's -/
+example : (match deferredSnapshot Ex.nested ⟨⟨40, 1024, 10, 2⟩, Ex.frame0, []⟩ "return" 3 with
+    | .ok s => (s.table.map (·.vid), s.watches.map (·.vid)) | .failed _ => ([], [])) = ([2, 3, 4, 5, 6, 7], [some 4]) := by decide
+
+end deferred
 
 /-! ### non-vacuity: the limits are really hit by concrete heaps
 
